@@ -233,7 +233,20 @@ class RFn(Fn):
 
     def stmts(self, b, tail_returns):
         out = []
-        for st in b[2]:
+        for i, st in enumerate(b[2]):
+            # let (&k, _) = <map>.raw_entry().from_hash(h, EQ)?;  REST     (in a function returning Option<K>)
+            #   =   match <lookup> { Some((&k, _)) => { REST }, None => return None }
+            if st[0] == "let" and st[2][0] == "ptuple" and strip(st[4])[0] == "try" and self.rkind == "opt_key":
+                pt = st[2][2]
+                h = self.raw_lookup(strip(st[4])[2])
+                if h is None or len(pt) != 2 or pt[0][0] != "pref" or pt[0][2][0] != "pbind" or \
+                        not (pt[1][0] == "pwild" or (pt[1][0] == "pref" and pt[1][2][0] in ("pwild", "ptuple"))):
+                    self.lost(st, "`let (..) = ..?` is not `let (&k, _) = <map>.raw_entry().from_hash(h, EQ)?`")
+                k = pt[0][2][2]
+                self.sc.push(); self.sc.bind(k, "key", st[1])
+                rest = self.stmts(("block", st[1], b[2][i + 1:], b[3], False), tail_returns)
+                self.sc.pop()
+                return out + [("lookup", h, k, rest, [("s", "RReturn (RRNoneKey)", st[1])], st[1])]
             out += self.let(st) if st[0] == "let" else self.expr_stmt(st[2], st[1])
         t = b[3]
         if t is not None:
@@ -531,6 +544,13 @@ def run(repo, out):
         if b[0] == "mcall" and b[3] == "len" and not b[4] and is_self_field(strip(b[2]), "strings"): env["accessors"].add("len")
 
         parts = []
+        import astx
+        inlined = set()
+        # interpreted by the lowering itself: the two table primitives (exact shapes checked above), the accessor len() and the
+        # methods the wrappers forward to (by specification); every other function of this file is inlined at its call sites
+        KEEP = {(None, "get_string_entry_mut"), (None, "insert_string"), ("Rodeo", "len"), ("Rodeo", "get"),
+                ("Rodeo", "try_get_or_intern"), ("Rodeo", "try_get_or_intern_static")}
+        keep = lambda ty, name, node: (ty, name) in KEEP
         for name, gen, params, ret, rk, kinds in METHODS:
             f = unique(fns, name, params, ret, "method")
             env["as_ref_nodes"] = {}
@@ -539,7 +559,9 @@ def run(repo, out):
             for (p, _t), kd in zip([x for x in f[4] if x[0] != "self"], kinds):
                 fnl.sc.bind(p, kd, f[1])
                 if kd in ("key", "limits"): ps.append(p)
-            stl = fnl.stmts(parser.fn_body(f), True)
+            body, inl = astx.prepare(parser, items, f, "Rodeo", keep)
+            inlined.update(inl)
+            stl = fnl.stmts(body, True)
             if rk == "unit": stl.append(("s", "RReturn RRUnit", f[7]))
             parts.append("(* %s:%d-%d  fn %s *)\nDefinition %s : rfundef := mkRFun [%s]\n  (%s).\n" % (
                 rel, f[1], f[7], name, gen, "; ".join(q(p) for p in ps), rpp(stl, 2, rel)))
@@ -550,13 +572,14 @@ def run(repo, out):
    DO NOT EDIT: regenerated on every run.  Terms of the IR of GenIRRodeo.v (see there for the primitives and
    lower_rodeo.py for the recognised source forms).  Checked shapes: struct Rodeo, type StringMap, the helpers
    get_string_entry_mut (= tlookup) and insert_string (= tinsert), the accessor len().
-   Callees replaced by their specification: %s *)
+   Callees replaced by their specification: %s
+   Private helpers of the source file inlined before lowering (astx.py): %s *)
 From Lasso Require Import Base Arena Rodeo.
 From LassoGen Require Import GenPrelude GenIR GenIRRodeo.
 Open Scope string_scope.
 Open Scope N_scope.
 
-""" % (path, ", ".join(sorted(set("%s::%s" % (t, n) for t, n, _ in known.needs))))
+""" % (path, ", ".join(sorted(set("%s::%s" % (t, n) for t, n, _ in known.needs))), ", ".join(sorted(inlined)) or "none")
     tail = "\n#[global] Hint Unfold %s : arenagen.\n" % " ".join(g for _, g, _, _, _, _ in METHODS)
     open(os.path.join(out, "RodeoGen.v"), "w").write(hdr + "\n".join(parts) + tail)
     print("rust2coq: rodeo: %d definitions -> %s" % (len(METHODS), os.path.join(out, "RodeoGen.v")))
